@@ -269,7 +269,11 @@ def make_direct_case(ctx, wd, idx, vt, meta, cfgd, plan, cmdline):
     desc = f"direct cfg={cfgd} file={idx} err={err}"
     if err is not None and not err.startswith("KeyError"):
         return {"malformed": err, "replay": replay, "desc": desc, "fin": fin}
-    fout = None if err else vcfabs.parse_vcf(out_path)
+    try:
+        fout = None if err else vcfabs.parse_vcf(out_path)
+    except Exception as e:
+        ctx.violation("writer:output-unreadable", f"the written VCF cannot be parsed ({type(e).__name__}: {e}): " + desc, replay)
+        return {"malformed": "output unreadable", "replay": replay, "desc": desc, "fin": fin, "reported": True}
     if fout is not None and fout.nul_bytes:
         ctx.tally("cases.output_with_nul_bytes")
     if fout is not None and fout.nul_bytes and ctx.dist.get("cases.output_with_nul_bytes", 0) <= 2:
@@ -289,6 +293,8 @@ def plan_from_json(p):
 def expected_header_error(vt):
     """does the input use an INFO/FORMAT that is neither declared nor predefined (VcfError expected)?"""
     txt = "\n".join(vt.header_lines)
+    if "ID=PS,Number=1,Type=String" in txt:
+        return True             # missing_headers refuses a PS of non-standard type
     for r in vt.rows:
         if "XU=" in r[7] and "ID=XU" not in txt:
             return True
@@ -297,13 +303,65 @@ def expected_header_error(vt):
     return False
 
 
+def record_kind(row):
+    alt = row[4]
+    if alt == ".":
+        return "noalt"
+    if any(a.startswith("<") for a in alt.split(",")):
+        return "sym"
+    if "," in alt:
+        return "multi"
+    return "snv" if len(row[3]) == 1 and len(alt) == 1 else "indel"
+
+
+def tally_shapes(ctx, prefix, vt):
+    """input-distribution counters for the shapes the skip rules and the stream logic depend on"""
+    rows = vt.rows
+    ctx.tally(f"{prefix}.samples.{len(vt.samples)}")
+    if not rows:
+        ctx.tally(f"{prefix}.empty_file")
+    if vt.samples != sorted(vt.samples):
+        ctx.tally(f"{prefix}.sample_names_unsorted")
+    chroms = []
+    for r in rows:
+        if not chroms or chroms[-1] != r[0]:
+            chroms.append(r[0])
+    ctx.tally(f"{prefix}.chromosome_runs.{min(len(chroms), 4)}")
+    if chroms != sorted(chroms):
+        ctx.tally(f"{prefix}.chromosome_names_unsorted")
+    i = 0
+    while i < len(rows):
+        j = i
+        while j + 1 < len(rows) and rows[j + 1][0] == rows[i][0] and rows[j + 1][1] == rows[i][1]:
+            j += 1
+        if j > i:
+            ctx.tally(f"{prefix}.dup." + ">".join(record_kind(r) for r in rows[i:j + 1][:3]))
+        i = j + 1
+    for r in rows:
+        ctx.tally(f"{prefix}.kind." + record_kind(r))
+        if len(r) > 9:
+            fmt = r[8].split(":")
+            for call in r[9:]:
+                f = call.split(":")
+                gt = f[0] if fmt[0] == "GT" else None
+                vals = dict(zip(fmt, f))
+                if gt is not None:
+                    for k in ("PS", "HP"):
+                        if vals.get(k, ".") not in (".", ""):
+                            ctx.tally(f"{prefix}.pre_{k}_with_" + ("pipe" if "|" in gt else "slash"))
+                    if "|" in gt and vals.get("PS", ".") in (".", ""):
+                        ctx.tally(f"{prefix}.pipe_without_PS")
+
+
 def run_direct(ctx, n):
     rng = ctx.rng
     wd = util.workdir(ctx)
     cases = []
     for idx in range(n):
         unknown = rng.random() < 0.04
-        vt, meta = vcfgen.gen_vcf(rng, allow_unknown_undeclared=unknown, interleave_chroms=rng.random() < 0.1)
+        vt, meta = vcfgen.gen_vcf(rng, allow_unknown_undeclared=unknown, interleave_chroms=rng.random() < 0.1,
+                                  nrec=0 if rng.random() < 0.02 else None)
+        tally_shapes(ctx, "direct", vt)
         cfgd = {"tag": rng.choice(["PS", "HP"]), "only_snvs": rng.random() < 0.25, "mav": rng.random() < 0.15,
                 "use_write_unchanged": rng.random() < 0.3}
         plan = gen_plan(rng, vt, meta, cfgd)
@@ -312,15 +370,18 @@ def run_direct(ctx, n):
         ctx.tally("direct.files")
         ctx.tally("direct.tag." + cfgd["tag"])
         ctx.tally("direct.prephase." + str(meta["prephase"]))
+        if c.get("reported"):
+            ctx.count(("direct-unreadable", vt.text()), nontrivial=False)
+            continue
         if "malformed" in c:
             ctx.tally("direct.rejected")
             exp = expected_header_error(vt)
             if not (exp and c["malformed"].startswith("VcfError")):
-                ctx.l2_disagreement("PhasedVcfWriter raised unexpectedly", [c["desc"]])
+                ctx.violation("writer:crash", "PhasedVcfWriter raised on a well-formed input: " + c["desc"], c["replay"])
             ctx.count(("direct-rej", vt.text()), nontrivial=False)
             continue
         if expected_header_error(vt):
-            ctx.l2_disagreement("VcfError expected for an undeclared non-predefined INFO/FORMAT", [c["desc"]])
+            ctx.l2_disagreement("VcfError expected for an undeclared non-predefined INFO/FORMAT or a non-Integer PS", [c["desc"]])
         ctx.count(("direct", vt.text(), json.dumps(cfgd, sort_keys=True), json.dumps(c["replay"]["plan"], sort_keys=True)),
                   nontrivial=nontrivial(c["fin"], c.get("fout"), plan, cfgd["tag"]))
         if c["err"]:
